@@ -36,10 +36,12 @@ Fixpoint mset_eqb {A} (eqb : A -> A -> bool) (l1 l2 : list A) : bool :=
   | x :: r => match remove1 eqb x l2 with Some l2' => mset_eqb eqb r l2' | None => false end
   end.
 
+(* what the property says about a merged problem: its identity and the build it comes from
+   (severity is not compared: which of several entries of one run with the same descriptor survives
+   is not part of the property) *)
 Definition diag_eqb (a b : diag) : bool :=
   pos_eqb (d_pos a) (d_pos b) && pos_eqb (d_end a) (d_end b) && String.eqb (d_cat a) (d_cat b)
-  && String.eqb (d_msg a) (d_msg b) && (d_sev a =? d_sev b) && (d_mergeif a =? d_mergeif b)
-  && String.eqb (d_build a) (d_build b).
+  && String.eqb (d_msg a) (d_msg b) && String.eqb (d_build a) (d_build b).
 
 Record case := mkCase {
   c_runs : list run;
